@@ -545,6 +545,12 @@ def check(run):
         cases += gen_group(run.rng, kind, 4, first=first)
     for i in range(nmal):
         cases.append(gen_malformed(run.rng, ['time', 'date', 'datetime'][i % 3]))
+    # month words that are not month names: longer than a full name, or too short to be unambiguous
+    for word in ('Mayday', 'Junes', 'Augustus', 'Marchh', 'Januaryy', 'Decembers', 'Julys', 'Ma', 'J', 'Ju', 'Octo-'):
+        cases.append(dict(kind='date', input=f"{word} 5", malformed=True, mclass='month_name'))
+        cases.append(dict(kind='date', input=f"1 {word} - 3 Dec", malformed=True, mclass='month_name'))
+        cases.append(dict(kind='datetime', input=f"2024-{word}-05 10:30 / 2025-01-01 10:00", malformed=True,
+                          mclass='month_name'))
     for c in cases:
         run.count('kind_' + c['kind'])
         run.count('input_' + ('str' if isinstance(c['input'], str) else 'seq'))
